@@ -40,12 +40,15 @@ def dataset(name, fam):
         obs = 20 + 1.2 * np.maximum(50 - T, 0) + 6.0 * np.maximum(T - np.sort(T)[-4], 0) + rng.normal(0, 1.0, days)
     elif name == "lateheat":        # mirror image: heating only on the 3 coldest days
         obs = 20 + 6.0 * np.maximum(np.sort(T)[3] - T, 0) + 1.2 * np.maximum(T - 65, 0) + rng.normal(0, 1.0, days)
-    elif name == "summerzero":      # a heating-only gas meter: exactly 0 all summer except five isolated days
-        obs = 1.4 * np.maximum(60 - T, 0)
-        warm = np.nonzero(T > 62)[0]
-        obs[warm] = 0.0
-        obs[warm[[7, 31, 58, 77, 90]]] = [3.0, 1.5, 2.0, 4.0, 2.5]
+    elif name == "summerzero":      # a heating-only gas meter: exactly 0 from June to September except five isolated days (two of them at a weekend)
+        obs = np.clip(0.9 * np.maximum(62 - T, 0) * (1 + rng.normal(0, 0.12, days)) + rng.normal(0, 0.6, days), 0, None)
+        obs[np.isin(idx.month, [6, 7, 8, 9])] = 0.0
+        for day in ("2019-06-11", "2019-07-06", "2019-07-24", "2019-08-18", "2019-09-03"):
+            obs[idx.get_loc(pd.Timestamp(day, tz="America/Chicago"))] = 1.0
         return pd.DataFrame({"temperature": T, "observed": obs}, index=idx), {"is_electricity_data": False}
+    elif name.startswith("vshape"):  # heating and cooling meet in one point (no flat band), the two slopes differ
+        hb, cb, bp = {"vshape": (1.6, 0.7, 60.0), "vshape2": (0.6, 2.2, 55.0), "vshape3": (2.5, 1.0, 65.0)}[name]
+        obs = 15 + hb * np.maximum(bp - T, 0) + cb * np.maximum(T - bp, 0) + rng.normal(0, 1.0, days)
     elif name == "inverted":        # usage peaks in mild weather and falls towards both temperature extremes: the initial guess finds no
         obs = 45 - 0.5 * np.abs(T - 60) + rng.normal(0, 1.0, days)      # heating or cooling slope at all
     elif name.startswith("flatn"):  # temperature-independent usage; the noise decides the sign of the trend at either end
